@@ -297,6 +297,7 @@ def with_shared(base_fn, shares):
 
 _c01, _c02, _c03, _c04, _c05, _c06, _c07, _c08, _c16 = c01, c02, c03, c04, c05, c06, c07, c08, c16
 c03 = with_shared(_c03, [(_c16, {'C16.O1': 'C03.j'}, 'a routine record is complete (final frame size, argument count, stack map) whenever a call can read it: records are written only when a routine is finished'),
+                         (_c02, {'C02.k': 'C03.m'}, 'the generator keeps its tables without undefined behaviour: no reference into a container is used after the element was removed'),
                          (_c08, {'C08.a': 'C03.l', 'C08.b': 'C03.l2'}, 'the debugger rewrites the opcode at every site listed for a location: the listed sites are exactly the marker instructions, so no jump, call or return of the program is ever turned into a marker'),
                          (_c04, {'C04.e': 'C03.k'}, 'marks are resolved within the routine that uses them and a jump to a mark that routine does not define is rejected, so every jump lands inside its own routine')])
 c01 = with_shared(_c01, [(_c03, {'C03.f': 'C01.h'}, 'a call binds the record of the routine registered under that name; the latest definition is registered by assignment'),
@@ -305,6 +306,7 @@ c01 = with_shared(_c01, [(_c03, {'C03.f': 'C01.h'}, 'a call binds the record of 
                          (c10, {'C10.a': 'C01.i', 'C10.d': 'C01.i2'}, 'macro temporaries of different expansions never coincide, so expansion preserves the meaning of nested macro uses'),
                          (c07, {'C07.h': 'C01.m'}, 'the value of a user-named variable of a live activation is the word at that activation\'s own data_start + register: the view through which "every user-named variable of every live activation" is read'),
                          (c20, {'C20.A1': 'C01.n'}, 'x+c and truncated x-c are computed in a wider type and saturate: no signed overflow in the machine\'s arithmetic'),
+                         (_c08, {'C08.a': 'C01.o'}, 'arming a line rewrites marker instructions only: the sites listed for a line are the positions of its POTENTIAL_BREAKs, so no instruction of the program is overwritten'),
                          (c09, {'C09.a': 'C01.l3', 'C09.b': 'C01.l4', 'C09.d': 'C01.l5'}, 'which macro use is rewritten (highest priority, then leftmost, then longest) and where its body is spliced in is part of what a source with macros means'),
                          (c09, {'C09.e': 'C01.l', 'C09.f': 'C01.l2'}, 'a macro use means its body with every $n replaced by what slot n matched, and a literal of the pattern matches by kind and (identifiers, integers, operators) by text: otherwise a program using macros computes something else')])
 c02 = with_shared(_c02, [(c15, {'C15.I4': 'C02.g', 'C15.I6': 'C02.g2'}, 'scanning terminates: no hang on include cycles'),
@@ -313,19 +315,26 @@ c02 = with_shared(_c02, [(c15, {'C15.I4': 'C02.g', 'C15.I6': 'C02.g2'}, 'scannin
                          (c08, {'C08.e': 'C02.o', 'C08.h': 'C02.o2'}, 'positions carried by tree nodes and tokens are (file, line) pairs of one token, so an error reported there names a line inside a supplied file'),
                          (c11, {'C11.a': 'C02.i'}, 'macro expansion does work bounded by the pass budget: at most `passes` rewrites'),
                          (c12, {'C12.a': 'C02.j', 'C12.f': 'C02.j2'}, 'the conflict error of a definition is located at that definition\'s own first pattern token, a position in a supplied file')])
-c04 = with_shared(_c04, [(c20, {'C20.A2': 'C04.f', 'C20.A3': 'C04.f2'}, 'every literal that reaches an instruction is range-checked'),
+c04 = with_shared(_c04, [(c09, {'C09.g': 'C04.l'}, 'the built-in id+int / id-int sugar is applied wherever it occurs: every start position of the text is tried'),
+                         (c11, {'C11.a': 'C04.m'}, 'a source with fewer sugar uses than the pass budget is expanded completely: the budget loop makes exactly budget passes'),
+                         (c20, {'C20.A2': 'C04.f', 'C20.A3': 'C04.f2'}, 'every literal that reaches an instruction is range-checked'),
                          (c14, {'C14.L2': 'C04.g'}, 'the terminals have their documented lexical form'),
                          (_c16, {'C16.O1': 'C04.j'}, 'a RUN of a name that is not defined earlier is rejected: the routine table is read only where the name was found, never through an inserting subscript that makes the name known'),
                          (_c03, {'C03.g': 'C04.k'}, 'every jump target is a label of the same program body: a mark that is never set is reported, which needs createLabel\'s "not set" value to be the one the tests compare with'),
                          (_c03, {'C03.f': 'C04.h'}, 'the argument-count rule is checked against the record of the latest definition of the called name'),
                          (_c02, {'C02.e': 'C04.i'}, 'a source is accepted only if no stage recorded an error: correctness is decided after all stage errors were merged')])
-c05 = with_shared(_c05, [(_c06, {'C06.b': 'C05.h'}, 'the enabled set names every armed site, so that clearing and resetting disarm all of them: an armed site that nobody lists stops a run that was asked to run through'),
+c05 = with_shared(_c05, [(c18, {'C18.P6': 'C05.i'}, 'arming a line rewrites opcodes in the machine\'s own copy of the program: another machine, or the caller\'s program, never sees a BREAK it did not ask for'),
+                         (_c06, {'C06.b': 'C05.h'}, 'the enabled set names every armed site, so that clearing and resetting disarm all of them: an armed site that nobody lists stops a run that was asked to run through'),
                          (c08, {'C08.a': 'C05.f', 'C08.b': 'C05.f2', 'C08.c': 'C05.f3'}, 'the sites the VM rewrites are exactly the POTENTIAL_BREAK instructions the generator listed'),
                          (c17, {'C17.Z1': 'C05.g', 'C17.Z2': 'C05.g2'}, 'reset() disarms every site it forgets: a run after reset() with nothing enabled is the uninterrupted run')])
-c06 = with_shared(_c06, [(_c05, {'C05.d': 'C06.h'}, 'resuming is a loop of single steps that returns at the first step that reports a stop, and not before'),
+c06 = with_shared(_c06, [(_c08, {'C08.c': 'C06.j'}, 'the location reported at a stop comes from a table that only the compiler\'s site bookkeeping writes: listing or querying a program adds no entries'),
+                         (c18, {'C18.P2': 'C06.k'}, 'the locations listed as available are those of this program: no accessor accumulates results across calls or programs'),
+                         (c18, {'C18.P6': 'C06.i'}, 'a machine stops only at lines enabled on this machine: the program whose opcodes it rewrites is its own copy'),
+                         (_c05, {'C05.d': 'C06.h'}, 'resuming is a loop of single steps that returns at the first step that reports a stop, and not before'),
                          (_c05, {'C05.b': 'C06.f'}, 'break handlers advance by exactly one instruction, so no site is skipped and the location lookup finds the site just passed'),
                          (_c08, {'C08.a': 'C06.g', 'C08.b': 'C06.g2'}, 'the site armed for a location is the marker emitted for that location and line_info names the same location for it, so a stop is reported at the line that was enabled')])
-c07 = with_shared(_c07, [(_c03, {'C03.e': 'C07.n'}, 'every parameter has a register (and stack-map entry) of its own, so the view shows each variable with its own value'),
+c07 = with_shared(_c07, [(_c01, {'C01.f': 'C07.p'}, 'a user variable has a register of its own and is listed: no temporary is registered under a name a user variable can have, none is used after its release'),
+                         (_c03, {'C03.e': 'C07.n'}, 'every parameter has a register (and stack-map entry) of its own, so the view shows each variable with its own value'),
                          (c17, {'C17.Z1': 'C07.l'}, 'after a reset no activation of the earlier run is left: the view lists the activations of this run only'),
                          (_c06, {'C06.d': 'C07.m'}, 'the line reported at a stop is the line of the site that was just passed'),
                          (c20, {'C20.A1': 'C07.o'}, 'the values the view shows are the source-level values: x+c and x-c are computed without signed overflow and saturate'),
@@ -340,29 +349,55 @@ c16 = with_shared(_c16, [(_c05, {'C05.b': 'C16.O7'}, 'every instruction, a break
                          (_c03, {'C03.g': 'C16.O5'}, 'every jump is resolved to a set label of its own routine: an unresolved jump would land on the root PREPARE and push activations without bound'),
                          (c20, {'C20.A1': 'C16.O6'}, 'register values never become negative, so a LOOP counter that is decremented reaches zero')])
 _c09, _c12, _c14, _c17, _c18, _c20 = c09, c12, c14, c17, c18, c20
-c09 = with_shared(_c09, [(_c12, {'C12.f': 'C09.j'}, 'every definition is matched by a detector built from that very definition (and the caller\'s definitions are left intact for the next call)')])
+c09 = with_shared(_c09, [(c18, {'C18.P2': 'C09.k'}, 'the detectors that are applied are built from the definitions given to this call: nothing is kept from an earlier call'),
+                         (c11, {'C11.d': 'C09.l'}, 'rewriting repeats until no pattern matches, within the documented budget: the front end passes the constant budget, not one derived from the input'),
+                         (_c12, {'C12.f': 'C09.j'}, 'every definition is matched by a detector built from that very definition (and the caller\'s definitions are left intact for the next call)')])
 c12 = with_shared(_c12, [(_c09, {'C09.h': 'C12.h'}, 'conflicts are judged against the grammar of the language: the pattern grammar derives exactly the language\'s values, argument lists and statement sequences')])
 c14 = with_shared(_c14, [(c15, {'C15.I4': 'C14.S5'}, 'an include is replaced by the tokens of the named file exactly once per directive: a file that is being scanned is not entered again'),
                          (_c02, {'C02.f': 'C14.S6'}, 'synthesised tokens (the final end-of-file token) are labelled with the position of the last scanned token')])
-c17 = with_shared(_c17, [(_c08, {'C08.a': 'C17.Z6', 'C08.b': 'C17.Z7'}, 'reset() puts POTENTIAL_BREAK at every listed site: the listed sites are exactly the marker instructions, otherwise a reset machine runs a different program than a fresh one'),
+c17 = with_shared(_c17, [(_c18, {'C18.P6': 'C17.Z9'}, 'a newly constructed machine starts from the compiled program, not from one that another machine has armed: the program is copied at construction'),
+                         (_c08, {'C08.a': 'C17.Z6', 'C08.b': 'C17.Z7'}, 'reset() puts POTENTIAL_BREAK at every listed site: the listed sites are exactly the marker instructions, otherwise a reset machine runs a different program than a fresh one'),
                          (_c06, {'C06.d': 'C17.Z8'}, 'before execution starts and after a reset the current location is none: the lookup is exact (ip - 1 is no site)'),
                          (_c06, {'C06.b': 'C17.Z5'}, 'the enabled set and the armed sites change together: disabling one location leaves the others listed, so reset() can disarm them')])
 c18 = with_shared(_c18, [(_c08, {'C08.c': 'C18.P11'}, 'observers (the disassembler, the VM\'s queries) do not write the program\'s tables: listing or inspecting a program leaves it the program that was compiled'),
                          (_c02, {'C02.p': 'C18.P9'}, 'no value is read before it was written: results do not depend on what happened to be in memory')])
-c20 = with_shared(_c20, [(_c02, {'C02.e': 'C20.A6'}, 'a recorded range error rejects the source: correctness is decided after the errors of every stage were merged'),
+c20 = with_shared(_c20, [(_c09, {'C09.b': 'C20.A7'}, 'a priority that passed the range check is the priority that is used: it is not narrowed on the way into the definition'),
+                         (_c02, {'C02.e': 'C20.A6'}, 'a recorded range error rejects the source: correctness is decided after the errors of every stage were merged'),
                          (c11, {'C11.c': 'C20.A5'}, 'a range error recorded by any stage makes the compilation incorrect: the errors of every stage are merged before correctness is decided')])
 _c19 = c19
 _c15 = c15
-c15 = with_shared(_c15, [(_c02, {'C02.e': 'C15.I8'}, 'a reported include problem rejects the source: correctness is decided after the scanner\'s errors were merged')])
+c15 = with_shared(_c15, [(c14, {'C14.L2': 'C15.I9', 'C14.L3': 'C15.I10', 'C14.L6': 'C15.I11'}, 'what an include directive names is decided by the scanner: a quoted name is any text between two quotes (FNAME), its token text is the whole match, and text in a // comment is no directive'),
+                         (_c02, {'C02.e': 'C15.I8'}, 'a reported include problem rejects the source: correctness is decided after the scanner\'s errors were merged')])
 _c11 = c11
 c11 = with_shared(_c11, [(_c02, {'C02.e': 'C11.e'}, 'the too-many-substitutions error makes the result incorrect: correctness is decided after the errors of macro application were merged')])
 c12 = with_shared(c12, [(_c11, {'C11.c': 'C12.j'}, 'the conflict errors of macro application reach the caller: parse() forwards the errors of every stage'),
                         (_c02, {'C02.e': 'C12.i'}, 'a reported ambiguity makes the result incorrect: correctness is decided after the errors of macro application were merged')])
 _c10 = c10
-c10 = with_shared(_c10, [(_c11, {'C11.a': 'C10.e'}, 'every rewriting step has a pass number of its own: at most one rewrite per iteration of the budget loop, whose counter is the number the temporaries are named after')])
+c10 = with_shared(_c10, [(_c03, {'C03.g': 'C10.f'}, 'different names denote different variables only if the register numbers they are mapped to are kept whole: no operand type narrower than the numbers the generator computes'),
+                         (c14, {'C14.L2': 'C10.g'}, 'equal n means equal spelling: the scanner admits exactly one spelling of a temporary\'s number (no leading zeros)'),
+                         (_c11, {'C11.a': 'C10.e'}, 'every rewriting step has a pass number of its own: at most one rewrite per iteration of the budget loop, whose counter is the number the temporaries are named after')])
 c19 = with_shared(_c19, [(c17, {'C17.Z1': 'C19.F4'}, 'reset() returns the data memory and the activation stack to the constructor state: frames of calls that were pending at the reset are released'),
                          (_c03, {'C03.g': 'C19.F5'}, 'every jump of compiled code is resolved to a label of its own routine, so an activation that was entered is left through its RET and its frame is released'),
                          (_c04, {'C04.e': 'C19.F6'}, 'marks are resolved per routine and unknown marks rejected: no jump leaves a routine without returning')])
+
+
+def with_widths(base_fn, pid):
+    """adds the rule <pid>.W: the integer quantities the property depends on are not declared narrower than int (all library units)"""
+    def run_(tier):
+        rep = base_fn(tier)
+        from .facts import all_units
+        from .genrules import narrow_rule
+        try:
+            lib = Facts([os.path.relpath(u, os.environ.get('VERIF_REPO', '/repo')) for u in all_units(os.environ.get('VERIF_REPO', '/repo'))])
+            narrow_rule(rep, pid + '.W', pid, lib)
+        except AnalysisBroken as ex:
+            rep.rule(pid + '.W', 'integer quantities are not declared narrower than int', floor=0).unknown('inventory', str(ex))
+        return rep
+    return run_
+
+
+for _pid in ('C01', 'C02', 'C03', 'C04', 'C05', 'C06', 'C07', 'C08', 'C09', 'C10', 'C11', 'C12', 'C14', 'C16', 'C17', 'C19', 'C20'):
+    globals()['c' + _pid[1:]] = with_widths(globals()['c' + _pid[1:]], _pid)
 
 
 CHECKS = {
